@@ -269,7 +269,7 @@ _EXTRA7 = {
  "C06": " Seventh round: (R-UTF-1) no unicode predicate on a single byte — genuine defect repaired (TrimSpace and leading multi-byte spaces); (R-CMP-10) no three-to-two collapse: the argument of ternary.ConvertFromBool never compares a ternary value with a ternary constant (negation is ternary.Not); R-CONV-4 registered.",
  "C07": " Seventh round: (R-LIM-5) LIMIT and OFFSET have one interpreter: LimitClause.Value / OffsetClause.Value are read only by View.Limit / View.Offset and the three error constructors. (R-LIM-6, engine E12) the clamping arithmetic of LIMIT / OFFSET by symbolic path evaluation: kept = min(max(n,0), L), dropped = min(max(n,0), L), view.offset = dropped; (R-SRT-8) no ordering decision on time.Time.UnixNano (undefined outside 1678–2262) and (R-SRT-9) EquivalentTo is the tie relation of Less — three genuine defects repaired (datetime sort keys, MEDIAN of datetimes, WITH TIES for 1 / 1.0).",
  "C08": " Seventh round: (R-CACHE-6) nothing fails after an eviction until the entry is re-published — genuine defect repaired (a failed lock upgrade dropped the loaded table); R-LOCK-6 / R-OWN-1 registered (a failing CREATE TABLE releases the handler it created).",
- "C09": " Seventh round: (R-LOCK-9) forUpdate is never invented: it comes from the user's FOR UPDATE or from being the target of a data-changing statement.",
+ "C09": " Seventh round: (R-LOCK-9) forUpdate is never invented: it comes from the user's FOR UPDATE or from being the target of a data-changing statement; (R-LOCK-10) the control files of a table are found by literal comparison, never by a pattern built from its name — genuine defect repaired (read locks of `a[1].csv`).",
  "C11": " Seventh round: (R-PATH-2) a path used by a clean-up after user statements ran (the removal of an empty --out file) is absolute, because CHDIR changes the working directory. (R-MTX-2) registered: a self-deadlocked run can only be killed, which leaves the lock files.",
  "C12": " Seventh round: (R-PAR-5, engine E11) the task ranges tile the input: RecordRange read path by path as polynomials over (task index, recordLen, Number, recordLen/Number) gives start(0) = 0, end(i) = start(i+1), end(last) = recordLen, empty ranges only beyond the last row; every consumer walks exactly [start, end); every task function is started for each index 0 … Number−1 — the rows the workers handle are a partition of the input for every --cpu. (R-CACHE-5) a cache hit compares the requested import options (known finding, two keys: the first loader wins and the order of first loads depends on the schedule); (R-PAR-17) a transaction file handle is used inside the critical section that took it; (R-ORD-2).",
  "C13": " Seventh round: (R-PAR-5) the workers' row ranges are disjoint (premise of R-PAR-1's index-partitioned writes). (R-PAR-17); (R-PAR-18) only the statement-level processor stores results in the Transaction; (R-PAR-20) between a go statement and the join the spawner only spawns; (R-LKS-1) every field a struct's methods write under its mutex is accessed under it (known finding, seven keys on Cursor); R-ALIAS-1 extended to slabs reached through closures / helpers and to slice fields grown in place.",
